@@ -1086,9 +1086,9 @@ pub fn run_ros_property(opt: &Options, prop: &'static str) -> i32 {
         &[Analysis::Rr, Analysis::Bw]
     };
     let (inputs, schedules) = if opt.thorough() {
-        (opt.scaled(600_000), 60u64)
+        (opt.scaled(if prop == "C05" { 3_000_000 } else { 1_500_000 }), 60u64)
     } else {
-        (opt.scaled(20_000), 16u64)
+        (opt.scaled(if prop == "C05" { 200_000 } else { 100_000 }), 20u64)
     };
     let fps = Distinct::new(30);
     let nontrivial = Distinct::new(30);
